@@ -21,7 +21,11 @@
    An argument value is  [tag, t, k, s, l, dom, grp]  (grp = class label findings are keyed under;
    "ood" = outside the documented domain):
      t = "none" | "int" (k) | "num" (k = value * 100, the 0.01 grid) | "str" (s) | "bool" (k)
-       | "dtm" (s = ISO text, passed as datetime) | "list" (l = sequence of strings)            *)
+       | "dtm" (s = ISO text, passed as datetime) | "dtmtxt" (the same, passed as ISO text)
+         -- a datetime finer than the wire:  s = the wire instant it lies in, k = how far beyond it
+            in microseconds (0 < k < DtmUnit), l = <<the next wire instant>>  (see DtmW)
+       | a sequence of strings l, by the container it is handed over in (SeqKinds):
+         "list" | "tuple" | "keys" (dict view) | "set" | "gen" (generator) | "iter" | "map"        *)
 EXTENDS Naturals, Integers, Sequences, FiniteSets, TLC
 
 ----------------------------------------------------------------------------------------------
@@ -69,17 +73,36 @@ Vs(tag, s, dom)     == V(tag, "str",  0, s,  <<>>, dom)
 Vb(tag, k, dom)     == V(tag, "bool", k, "", <<>>, dom)
 Vd(tag, s, dom)     == V(tag, "dtm",  0, s,  <<>>, dom)
 Vl(tag, l, dom)     == V(tag, "list", 0, "", l,    dom)
+Vq(tag, kind, l, dom) == V(tag, kind, 0, "", l, dom)          \* the sequence l handed over in a container of that kind
+Vdf(tag, lo, us, hi, dom)  == V(tag, "dtm",    us, lo, <<hi>>, dom)   \* the datetime lo + us microseconds (hi = next wire instant)
+Vdft(tag, lo, us, hi, dom) == V(tag, "dtmtxt", us, lo, <<hi>>, dom)   \* the same as ISO text
+
+(* containers a sequence-valued argument can come in.  Re-iterable ones can be read any number of times; a
+   one-shot iterator yields its items once (and is true even when it has none).  Whatever the container, the
+   argument *is* the sequence of items it yields: a call that builds a frame must carry those (clause c). *)
+ReIterable == {"list", "tuple", "keys", "set"}
+OneShot    == {"gen", "iter", "map"}
+SeqKinds   == ReIterable \cup OneShot
+DtmKinds   == {"dtm", "dtmtxt"}
 
 HexD == <<"0","1","2","3","4","5","6","7","8","9","A","B","C","D","E","F">>
 Hex2(n) == IF n \in 0..255 THEN HexD[(n \div 16) + 1] \o HexD[(n % 16) + 1] ELSE "??"      \* 0..255 -> "00".."FF"
 
 (* a wanted / reported value of the decoded payload *)
-W(key, t, k, s) == [key |-> key, t |-> t, k |-> k, s |-> s]
+W(key, t, k, s) == [key |-> key, t |-> t, k |-> k, s |-> s, s2 |-> ""]      \* s2: a second text that is as good (Wd)
 Wn(key)    == W(key, "none", 0, "")
 Wi(key, k) == W(key, "int", k, "")
 Wr(key, k) == W(key, "num", k, "")
 Ws(key, s) == W(key, "str", 0, s)
 Wb(key, k) == W(key, "bool", k, "")
+Wd(key, lo, hi) == [W(key, "str", 0, lo) EXCEPT !.s2 = hi]
+
+(* datetimes on the wire: W|313F carries whole seconds, every `until` whole minutes (hex_from_dtm sends the
+   fields of dtm.timetuple(), without the seconds byte for an until: finer fields are dropped).  An argument
+   that lies between two wire instants lo < arg < hi is carried "to wire resolution" by lo (what the library's
+   encoder sends) or by hi (an encoder that rounds up / to nearest, with the carry) -- by nothing else. *)
+DtmUnit(ctor, slot) == IF ctor = "set_system_time" /\ slot = "datetime" THEN 1000000 ELSE 60000000    \* microseconds
+DtmW(key, v) == IF v.t \in DtmKinds /\ v.k > 0 THEN Wd(key, v.s, v.l[1]) ELSE Ws(key, v.s)
 
 ----------------------------------------------------------------------------------------------
 (* zone / domain index as the library prints it, given the argument ( _check_idx ) *)
@@ -104,7 +127,7 @@ CodeOf(a, codes, ofName(_)) ==
     [] OTHER       -> "?"
 
 Truthy(a) == CASE a.t = "none" -> FALSE [] a.t = "int" -> a.k # 0 [] a.t = "num" -> a.k # 0 [] a.t = "bool" -> a.k # 0
-               [] a.t = "str" -> a.s # "" [] a.t = "list" -> a.l # <<>> [] OTHER -> TRUE
+               [] a.t = "str" -> a.s # "" [] a.t \in ReIterable -> a.l # <<>> [] OTHER -> TRUE     \* a one-shot iterator is true
 IsNone(a) == a.t = "none"
 
 (* _normalise_mode(mode, target, until, duration): the 2-character mode, or "Refuse" *)
@@ -157,7 +180,7 @@ JoinC(q) == IF q = <<>> THEN "" ELSE IF Len(q) = 1 THEN q[1] ELSE q[1] \o "," \o
 RECURSIVE Drop(_, _)
 Drop(q, S) == IF q = <<>> THEN <<>> ELSE (IF q[1] \in S THEN <<>> ELSE <<q[1]>>) \o Drop(Tail(q), S)
 
-BindCodes(a) == LET c == G(a, "codes") IN IF c.t = "list" THEN c.l ELSE IF c.t = "str" /\ c.s # "" THEN <<c.s>> ELSE <<>>
+BindCodes(a) == LET c == G(a, "codes") IN IF c.t \in SeqKinds THEN c.l ELSE IF c.t = "str" /\ c.s # "" THEN <<c.s>> ELSE <<>>
 BindPh(a)    == BindPhase(G(a, "verb").s, G(a, "dstrel").s)
 
 FanCodes == {"00","01","02","03","04","05","06","07"}
@@ -205,7 +228,7 @@ ZoneW(a)  == Ws("zone_idx", IF IdxHex(G(a, "zone_idx")) = "FA" THEN "HW" ELSE Id
 DhwIdxW(a) == Ws("dhw_idx", IF Has(a, "dhw_idx") THEN Hex2(G(a, "dhw_idx").k) ELSE "00")
 OptW(a, slot, key) == LET v == G(a, slot) IN
   CASE v.t = "none" -> {Wn(key)} [] v.t = "num" -> {Wr(key, v.k)} [] v.t = "int" -> {Wi(key, v.k)}
-    [] v.t = "bool" -> {Wb(key, v.k)} [] v.t = "str" -> {Ws(key, v.s)} [] v.t = "dtm" -> {Ws(key, v.s)} [] OTHER -> {}
+    [] v.t = "bool" -> {Wb(key, v.k)} [] v.t = "str" -> {Ws(key, v.s)} [] v.t \in DtmKinds -> {DtmW(key, v)} [] OTHER -> {}
 Dflt(a, slot, v) == IF Has(a, slot) /\ ~IsNone(G(a, slot)) THEN G(a, slot) ELSE v
 NumW(a, slot, key, dflt) == LET v == Dflt(a, slot, Vr("d", dflt, TRUE)) IN Wr(key, IF v.t = "int" THEN v.k * 100 ELSE v.k)
 IntW(a, slot, key, dflt) == Wi(key, Dflt(a, slot, Vi("d", dflt, TRUE)).k)
@@ -244,14 +267,14 @@ Wants(ctor, a) ==
     [] ctor = "set_dhw_mode" ->
          {DhwIdxW(a), Ws("mode", ModeName(DhwMode(a)))}
          \cup (IF DhwMode(a) = "00" \/ IsNone(G(a, "active")) THEN {} ELSE {Wb("active", IF Truthy(G(a, "active")) THEN 1 ELSE 0)})
-         \cup (IF IsNone(G(a, "until")) THEN {} ELSE {Ws("until", G(a, "until").s)})
+         \cup (IF IsNone(G(a, "until")) THEN {} ELSE {DtmW("until", G(a, "until"))})
     [] ctor = "set_zone_mode" ->
          {ZoneW(a), Ws("mode", ModeName(ZoneMode(a)))} \cup OptW(a, "setpoint", "setpoint")
-         \cup (IF IsNone(G(a, "until")) THEN {} ELSE {Ws("until", G(a, "until").s)})
+         \cup (IF IsNone(G(a, "until")) THEN {} ELSE {DtmW("until", G(a, "until"))})
          \cup (IF IsNone(G(a, "duration")) THEN {} ELSE {Wi("duration", G(a, "duration").k)})
     [] ctor = "set_zone_setpoint" -> {ZoneW(a)} \cup OptW(a, "setpoint", "setpoint")
     [] ctor = "set_system_mode" ->
-         {Ws("system_mode", SysName(SysCode(a)))} \cup (IF IsNone(G(a, "until")) THEN {} ELSE {Ws("until", G(a, "until").s)})
+         {Ws("system_mode", SysName(SysCode(a)))} \cup (IF IsNone(G(a, "until")) THEN {} ELSE {DtmW("until", G(a, "until"))})
     [] ctor = "set_system_time" -> OptW(a, "datetime", "datetime") \cup {BoolW(a, "is_dst", "is_dst", 0)}
     [] ctor \in {"put_sensor_temp", "put_dhw_temp", "put_weather_temp"} -> OptW(a, "temperature", "temperature")
     [] ctor = "put_outdoor_temp" -> OptW(a, "temperature", "outdoor_temp")
@@ -294,6 +317,7 @@ SameVal(w, g) ==
   \/ (w.t = "bool" /\ g.t = "int" /\ w.k = g.k)
   \/ (w.t = "int" /\ g.t = "bool" /\ w.k = g.k)
   \/ (w.t = "bool" /\ w.k = 0 /\ g.t = "none")             \* a flag that is not set may be reported as None
+  \/ (w.t = "str" /\ w.s2 # "" /\ g.t = "str" /\ g.s = w.s2) \* a datetime between two wire instants: either of them
 
 Carried(w, got) == \E i \in 1..Len(got) : got[i].key = w.key /\ SameVal(w, got[i])
 MissingWants(ctor, a, got) == {w \in Wants(ctor, a) : ~Carried(w, got)}
